@@ -220,6 +220,115 @@ def look_struct(fi):
         return 'shape', 'no returning path'
     return 'ok', '%d returning paths: position kept, z = unit(target - position), x orthogonal unit, y = z x x' % n_ret
 
+
+# ---------------------------------------------------------------------------------------------------------------------
+# numericalJacobian: every difference quotient is central and divided by twice the step
+def central_differences(fi):
+    """-> (quotients found, [(lineno, problem)]) for the finite-difference driver `fi(handle, x, step)`.
+    A quotient is `(h(P) - h(M)) / D` with h the handle.  Required: D == 2 * step; P and M are the point moved by +step / -step in the
+    SAME coordinate: either two copies of x with `P[k] = P[k] + step`, `M[k] = M[k] - step` (same index texts, nothing else stored
+    into them), or `x + S` / `x - S` with one step vector S built from the step."""
+    if len(fi.params) < 3:
+        return 0, [(fi.node.lineno, 'numericalJacobian takes (handle, point, step)')]
+    h, x, d = fi.params[0], fi.params[1], fi.params[2]
+    defs = {}
+    for n in ast.walk(fi.node):
+        if isinstance(n, ast.Assign) and len(n.targets) == 1 and isinstance(n.targets[0], ast.Name):
+            defs.setdefault(n.targets[0].id, []).append(n.value)
+
+    def res(e, depth=0):
+        """single-definition locals replaced by their definition (for recognising 2 * step / step vectors)"""
+        if isinstance(e, ast.Name) and e.id not in (h, x, d) and len(defs.get(e.id, [])) == 1 and depth < 4:
+            return res(defs[e.id][0], depth + 1)
+        return e
+
+    def is_copy_of_x(e):
+        e = res(e)
+        t = norm_text(e)
+        if t == x:
+            return True
+        if isinstance(e, ast.Call):
+            tail = norm_text(e.func).split('.')[-1]
+            if tail in ('copy', 'array', 'asarray', 'astype', 'asfarray', 'ascontiguousarray', 'deepcopy'):
+                inner = e.func.value if (isinstance(e.func, ast.Attribute) and norm_text(e.func.value) not in ('np', 'numpy', 'copy')) else (e.args[0] if e.args else None)
+                return inner is not None and is_copy_of_x(inner)
+        return False
+    problems, n_q = [], 0
+    for q in ast.walk(fi.node):
+        if not (isinstance(q, ast.BinOp) and isinstance(q.op, ast.Div) and isinstance(q.left, ast.BinOp) and isinstance(q.left.op, ast.Sub)):
+            continue
+        a, b = q.left.left, q.left.right
+        if not (isinstance(a, ast.Call) and isinstance(b, ast.Call) and norm_text(a.func) == h and norm_text(b.func) == h and len(a.args) == 1 and len(b.args) == 1):
+            continue
+        n_q += 1
+        D = norm_text(res(q.right))
+        if D not in ('2*%s' % d, '%s*2' % d, '2.0*%s' % d, '%s*2.0' % d, '%s+%s' % (d, d), '(2*%s)' % d):
+            problems.append((q.lineno, 'the difference of the two probes is divided by %s, not by twice the step %s' % (D, d)))
+        P, M = a.args[0], b.args[0]
+        # probes that are parameters of a local helper: what the helper is called with
+        encl = next((f_ for f_ in ast.walk(fi.node) if isinstance(f_, (ast.FunctionDef, ast.Lambda)) and f_ is not fi.node
+                     and any(n_ is q for n_ in ast.walk(f_))), None)
+        pairs = [(P, M)]
+        if encl is not None and isinstance(P, ast.Name) and isinstance(M, ast.Name):
+            names = [a_.arg for a_ in encl.args.args]
+            if P.id in names and M.id in names:
+                hname = encl.name if isinstance(encl, ast.FunctionDef) else next((k_ for k_, v_ in defs.items() if any(x_ is encl for x_ in v_)), None)
+                sites = [c for c in ast.walk(fi.node) if isinstance(c, ast.Call) and isinstance(c.func, ast.Name) and c.func.id == hname
+                         and len(c.args) > max(names.index(P.id), names.index(M.id))]
+                pairs = [(c.args[names.index(P.id)], c.args[names.index(M.id)]) for c in sites] or pairs
+        for P, M in pairs:
+          if isinstance(P, ast.Name) and isinstance(M, ast.Name) and P.id != M.id:
+              moved = {}
+              for nm, sign in ((P.id, ast.Add), (M.id, ast.Sub)):
+                  idx = set()
+                  for n in ast.walk(fi.node):
+                      tgt = val = None
+                      if isinstance(n, ast.Assign) and len(n.targets) == 1 and isinstance(n.targets[0], ast.Subscript) and norm_text(n.targets[0].value) == nm:
+                          tgt, val = n.targets[0], n.value
+                          ok = isinstance(val, ast.BinOp) and isinstance(val.op, sign) and norm_text(val.left) == norm_text(tgt) and norm_text(res(val.right)) == d
+                      elif isinstance(n, ast.AugAssign) and isinstance(n.target, ast.Subscript) and norm_text(n.target.value) == nm:
+                          tgt = n.target
+                          ok = isinstance(n.op, sign) and norm_text(res(n.value)) == d
+                      else:
+                          continue
+                      if not ok:
+                          problems.append((n.lineno, 'probe point `%s` is moved by `%s`, not by %s%s in one coordinate' % (
+                              nm, norm_text(n)[:60], '+' if sign is ast.Add else '-', d)))
+                      idx.add(norm_text(tgt.slice))
+                  if not idx:
+                      problems.append((q.lineno, 'probe point `%s` is never moved off the evaluation point' % nm))
+                  moved[nm] = idx
+                  for v in defs.get(nm, []):
+                      if not is_copy_of_x(v):
+                          problems.append((v.lineno, 'probe point `%s` does not start as a copy of the evaluation point %s (%s)' % (nm, x, norm_text(v)[:50])))
+                  if not defs.get(nm):
+                      problems.append((q.lineno, 'probe point `%s` is not a local copy of the evaluation point' % nm))
+              if moved.get(P.id) != moved.get(M.id):
+                  problems.append((q.lineno, 'the two probes are moved in different coordinates (%s vs %s)' % (sorted(moved.get(P.id, ())), sorted(moved.get(M.id, ())))))
+          elif isinstance(P, ast.BinOp) and isinstance(M, ast.BinOp):
+              okp = isinstance(P.op, ast.Add) and is_copy_of_x(P.left)
+              okm = isinstance(M.op, ast.Sub) and is_copy_of_x(M.left)
+              same = norm_text(P.right) == norm_text(M.right)
+              if not (okp and okm and same):
+                  problems.append((q.lineno, 'probes are %s and %s, not the evaluation point plus / minus one step vector' % (norm_text(P)[:40], norm_text(M)[:40])))
+              else:
+                  S = P.right
+                  base = S.value if isinstance(S, ast.Subscript) else S
+                  if isinstance(base, ast.Name) and base.id in {a_.arg for f_ in ast.walk(fi.node) if isinstance(f_, (ast.FunctionDef, ast.Lambda)) and f_ is not fi.node for a_ in f_.args.args}:
+                      # a parameter of a local helper: look at what the helper is called with
+                      calls = [c for c in ast.walk(fi.node) if isinstance(c, ast.Call) and isinstance(c.func, ast.Name) and c.args
+                               and any(isinstance(f_, ast.FunctionDef) and f_.name == c.func.id and f_ is not fi.node for f_ in ast.walk(fi.node))]
+                      bases = [c.args[0].value if isinstance(c.args[0], ast.Subscript) else c.args[0] for c in calls]
+                  else:
+                      bases = [base]
+                  for b_ in bases:
+                      t = norm_text(res(b_))
+                      if not (d in [m_.id for m_ in ast.walk(res(b_)) if isinstance(m_, ast.Name)] and ('eye' in t or 'identity' in t)):
+                          problems.append((q.lineno, 'step vector %s is not a row of step * identity' % t[:50]))
+          else:
+              problems.append((q.lineno, 'probe arguments %s / %s not recognised' % (norm_text(P)[:30], norm_text(M)[:30])))
+    return n_q, problems
+
 def check(model, rep):
     rep.extra['explanation'] = (
         'Exact polynomial identities for the plane / mirror / sphere helpers, constant folding of the angle-wrapping '
@@ -522,6 +631,16 @@ def check(model, rep):
         rep.ob('R18.5', fi, 'x^2 + y^2 + z^2 == 1', xyz is not None and xyz == Poly.const(1),
                'sample norm squared is %s' % (xyz if xyz is not None else 'not recognised'))
 
+    # ---------------------------------------------------------------- R18.9
+    rep.rule('R18.9', 'numericalJacobian: every difference quotient is (h(x + step e_k) - h(x - step e_k)) / (2 step): both probes start at the '
+                      'evaluation point, move by +step / -step in the same coordinate, and the difference is divided by twice the step')
+    nj = F(FSR, 'numericalJacobian')
+    n_q, probs = central_differences(nj)
+    rep.ob('R18.9', nj, 'difference quotients of the handle found', n_q >= 1, 'no expression (h(P) - h(M)) / D over the function handle', shape=True)
+    for line, msg in probs:
+        rep.ob('R18.9', nj, 'central difference', False, 'the numerical Jacobian is not the central difference of the handle: ' + msg, line=line)
+    if n_q and not probs:
+        rep.ob('R18.9', nj, 'central difference', True, '%d quotient(s)' % n_q)
     # ---------------------------------------------------------------- R18.8
     rep.rule('R18.8', 'a value accumulated in floating point inside a loop reaches sqrt / arccos / arcsin / log only through a clamp '
                       '(np.clip, min/max, abs): the accumulated sum may overshoot the mathematical end value by an ulp')
